@@ -36,13 +36,22 @@ theorem stack_balanced_script (fuel : Nat) (s : St) (ls : List Line) :
       | syntaxError => simp [runScript]
       | cmds l =>
       simp only [runScript]
-      have h := (bal fuel).list s l
-      generalize execList fuel s l = x at *
-      obtain ⟨s1, r⟩ := x
-      cases r with
-      | continue_ => simp only; rw [ih]; exact h
-      | break_ d => simpa using h
-      | outOfFuel => simpa using h
+      have hp := pollWith_stack (execList fuel) (fun a b => (bal fuel).list a b) s .continue_
+      generalize pollWith (execList fuel) s .continue_ = xp at *
+      obtain ⟨s0, r0⟩ := xp
+      simp only at hp
+      cases r0 with
+      | outOfFuel => simpa using hp
+      | break_ d => simpa using hp
+      | continue_ =>
+        simp only
+        have h := (bal fuel).list s0 l
+        generalize execList fuel s0 l = x at *
+        obtain ⟨s1, r⟩ := x
+        cases r with
+        | continue_ => simp only; rw [ih]; exact h.trans hp
+        | break_ d => simpa using h.trans hp
+        | outOfFuel => simpa using h.trans hp
 
 /-! ### ★ break_never_escapes -/
 
@@ -68,16 +77,28 @@ theorem toplevel_no_break (fuel : Nat) (s : St) (ls : List Line) (hs : loops s.s
       | syntaxError => simp [runScript]
       | cmds l =>
       simp only [runScript]
-      have h := (esc fuel).list s l
-      have hb := (bal fuel).list s l
-      generalize execList fuel s l = x at *
-      obtain ⟨s1, r⟩ := x
-      rw [hs] at h
-      cases r with
-      | continue_ => simp only; exact ih s1 rest (by simp only at hb; rw [hb]; exact hs)
+      have hp := pollWith_stack (execList fuel) (fun a b => (bal fuel).list a b) s .continue_
+      have hw := within_pollWith (execList fuel) (fun a b => (esc fuel).list a b) s .continue_ trivial
+      generalize pollWith (execList fuel) s .continue_ = xp at *
+      obtain ⟨s0, r0⟩ := xp
+      simp only at hp hw
+      rw [hs] at hw
+      have hs0 : loops s0.stack = 0 := by rw [hp]; exact hs
+      cases r0 with
       | outOfFuel => simp
-      | break_ d =>
-        cases d <;> simp_all [Within]
+      | break_ d => cases d <;> simp_all [Within]
+      | continue_ =>
+        simp only
+        have h := (esc fuel).list s0 l
+        have hb := (bal fuel).list s0 l
+        generalize execList fuel s0 l = x at *
+        obtain ⟨s1, r⟩ := x
+        rw [hs0] at h
+        cases r with
+        | continue_ => simp only; exact ih s1 rest (by simp only at hb; rw [hb]; exact hs0)
+        | outOfFuel => simp
+        | break_ d =>
+          cases d <;> simp_all [Within]
 
 /-- `break n` inside `d` visible loops leaves exactly `min n d` of them (`d = 0`: an error of a
     special built-in, which interrupts the shell with status 1). -/
@@ -279,14 +300,17 @@ theorem absent_command_status (fuel : Nat) (s : St) (w r a : Option Nat) :
 
 /-- an asynchronous list followed by `wait` never diverts the shell and leaves status 0: whatever the
     list does — `exit`, `break`, `return`, a failing command under errexit — stays in its subshell;
-    only its output is seen -/
+    only its output is seen (and the signals it sent to the shell) -/
 theorem async_list_isolated (fuel : Nat) (s : St) (body : List Item)
     (hf : (execList fuel (s.push .subshell) body).2 ≠ .outOfFuel) :
     (execCmd (fuel+1) s (.asyncWait body)).2 = .continue_ ∧
     (execCmd (fuel+1) s (.asyncWait body)).1 =
       { s with status := 0,
                trace := ((execList fuel (s.push .subshell) body).1.applyResult
-                          (execList fuel (s.push .subshell) body).2).trace } := by
+                          (execList fuel (s.push .subshell) body).2).trace,
+               -- a signal the list sent to the shell is pending when the list has been joined
+               pending := ((execList fuel (s.push .subshell) body).1.applyResult
+                          (execList fuel (s.push .subshell) body).2).pending } := by
   simp only [execCmd]
   generalize execList fuel (s.push .subshell) body = x at *
   obtain ⟨c1, r⟩ := x
